@@ -200,7 +200,7 @@ PROPERTIES["C04"] = {
           "tokio session actor: apply_engine_output_handshake (coroutine MIR) on a hand-assembled actor whose engine has just emitted HandshakeComplete + DeliverMessage for one read (v3 NULL and ZMTP/2.0 transcripts); socket writes and the pipe manager are stubbed",
           budget={"quick": 120, "thorough": 200}, required_covers=["c04.actor.handler-ran"]),
         M("c04_read_cycles", "d_c04", "read_cycles",
-          {"quick": "ZmqMessageProcessor::read_and_process (the tokio session's read cycle: awaited read, greedy try_read_chunk drain, on_network_bytes; coroutine MIR) over a scripted stream of 1..2 data frames (symbolic payload byte) that ends with EOF: every split of the bytes over awaited reads and greedy chunks with piece sizes {1 byte, to the end of the frame, everything}, the end of the stream seen by the greedy drain or by the next awaited read",
+          {"quick": "ZmqMessageProcessor::read_and_process (the tokio session's read cycle: awaited read, greedy try_read_chunk drain, on_network_bytes; coroutine MIR) over a scripted stream of 1..2 small data frames (symbolic payload byte), or one 28-byte frame with MAXMSGSIZE symbolic in 28..64 (a legal frame at the size limit), that ends with EOF: every split of the bytes over awaited reads and greedy chunks with piece sizes {1 byte, to the end of the frame, everything}, the end of the stream seen by the greedy drain or by the next awaited read",
            "thorough": "all piece sizes"},
           params={"quick": {}, "thorough": {"all_piece_sizes": True}}, budget={"quick": 600, "thorough": 2400},
           required_covers=["c04.reader.eof-seen-by-greedy-drain", "c04.reader.all-delivered"]),
